@@ -38,6 +38,9 @@ func (self ValueString) Fields() (map[string]*Value, *Interrupt) {
 		}),
 		"repeat": NewValueBuiltinFunction(func(executor Executor, cancelCtx *context.Context, span errors.Span, args ...Value) (*Value, *Interrupt) {
 			count := int(args[0].(ValueInt).Inner)
+			if count < 0 {
+				return nil, NewThrowInterrupt(span, fmt.Sprintf("cannot repeat a string %d times", count))
+			}
 			return NewValueString(strings.Repeat(self.Inner, count)), nil
 		}),
 		"split": NewValueBuiltinFunction(func(executor Executor, cancelCtx *context.Context, span errors.Span, args ...Value) (*Value, *Interrupt) {
@@ -52,6 +55,20 @@ func (self ValueString) Fields() (map[string]*Value, *Interrupt) {
 		"contains": NewValueBuiltinFunction(func(executor Executor, cancelCtx *context.Context, span errors.Span, args ...Value) (*Value, *Interrupt) {
 			test := args[0].(ValueString).Inner
 			return NewValueBool(strings.Contains(self.Inner, test)), nil
+		}),
+		"starts_with": NewValueBuiltinFunction(func(executor Executor, cancelCtx *context.Context, span errors.Span, args ...Value) (*Value, *Interrupt) {
+			test := args[0].(ValueString).Inner
+			return NewValueBool(strings.HasPrefix(self.Inner, test)), nil
+		}),
+		"substring": NewValueBuiltinFunction(func(executor Executor, cancelCtx *context.Context, span errors.Span, args ...Value) (*Value, *Interrupt) {
+			upper := args[0].(ValueInt).Inner
+
+			if upper < 0 || upper > int64(len(self.Inner)) {
+				return nil, NewThrowInterrupt(span, "index out of range")
+			}
+
+			sub := self.Inner[0:upper]
+			return NewValueString(sub), nil
 		}),
 		"to_lower": NewValueBuiltinFunction(func(executor Executor, cancelCtx *context.Context, span errors.Span, args ...Value) (*Value, *Interrupt) {
 			return NewValueString(strings.ToLower(self.Inner)), nil
